@@ -35,6 +35,7 @@ ASSUMPTIONS = [
     "non-body locations use primitives and default-style arrays only, so style decoding (C06) is not involved",
 ]
 
+GROUP_PATTERNS = ["^(?:ab)+$", "^(ab)*$", "^(?:[ab]0)+$", "^(?:ab|ac)+$", "(?:ab)+"]
 CHARS_QUICK = ["a", "b", "0", "\x00", "é", "/"]
 CHARS_THOROUGH = ["a", "b", "0", "1", "\x00", "é", "/", " ", "%", "€", "\ud800"]
 
@@ -58,6 +59,12 @@ def _schemas(tier: str, spec: str, location: str) -> list[tuple[str, dict, int]]
         add("string", s, d)
     # pattern x length sub-grammar, deeper
     for s in ss.string_schemas(b["K_pattern_length"], formats=False):
+        if "pattern" in s and ("minLength" in s or "maxLength" in s):
+            add("pattern_length", s, b["d_pattern_length"])
+    # repeated multi-character groups: the quantifier counts groups, the length keywords count characters
+    for s in ss.string_schemas(b["K_pattern_length"], formats=False, patterns=GROUP_PATTERNS):
+        if spec != "3.0" or location not in ("query", "body"):
+            break  # the converter code is shared by all specs and locations; two locations keep the quick tier small
         if "pattern" in s and ("minLength" in s or "maxLength" in s):
             add("pattern_length", s, b["d_pattern_length"])
     for s in ss.numeric_schemas(K if K > 1 else 1, spec):
